@@ -73,8 +73,10 @@ func (c *simClient) ProcessRange(ctx context.Context, in *pbssinternal.ProcessRa
 	try := e.tries[key]
 	e.tries[key]++
 	caller := e.curTier1
+	rq := e.reqSeq
 	e.mu.Unlock()
-	job := &JobInfo{ID: fmt.Sprintf("t2[%s,try%d]", key, try), Stage: in.Stage, Segment: in.SegmentNumber, Try: try, Req: in}
+	// node names are unique per request: a crashed job of an earlier request must not be confused with this one
+	job := &JobInfo{ID: fmt.Sprintf("t2[r%d,%s,try%d]", rq, key, try), Stage: in.Stage, Segment: in.SegmentNumber, Try: try, Req: in}
 	if try > 0 {
 		e.Probe("job_retried")
 	}
@@ -83,7 +85,7 @@ func (c *simClient) ProcessRange(ctx context.Context, in *pbssinternal.ProcessRa
 		e.Probe("live_backfiller_job")
 	}
 
-	d := e.Sim.Yield(caller, "net|call|"+job.ID, "unavailable_at_call", "deadline_at_call")
+	d := e.Sim.Yield(caller, "net|call|"+job.ID, "unavailable_at_call", "deadline_at_call", "t2_crash")
 	if d.Killed {
 		return nil, status.Error(codes.Canceled, "context canceled")
 	}
@@ -108,6 +110,11 @@ func (c *simClient) ProcessRange(ctx context.Context, in *pbssinternal.ProcessRa
 		cancel()
 		rpc.breakClient(status.Error(codes.Unavailable, "sim: tier2 crashed"))
 	})
+	if d.Fault == "t2_crash" {
+		// the worker process dies at its n-th released operation (between two of its file writes, mid-plan, ...):
+		// only what it had committed survives, the client sees the connection drop
+		e.Sim.KillNodeAtStep(job.ID, 1+d.Arg%16)
+	}
 	stop := context.AfterFunc(ctx, cancel) // client cancellation reaches the server
 	e.noteJobAccepted(job)
 	e.wg.Add(1)
